@@ -45,10 +45,46 @@ func eventTypeDigest() string {
 	return hex.EncodeToString(h.Sum(nil))
 }
 
+// orderTable categorises all 65536 types in a given visiting order, in a fresh process.
+func orderTable(order string) string {
+	tab := make([]byte, 65536)
+	visit := func(t int) { tab[t] = byte(aucoalesce.GetAuditEventType(auparse.AuditMessageType(t))) + 1 }
+	switch order {
+	case "descending":
+		for t := 65535; t >= 0; t-- {
+			visit(t)
+		}
+	case "stride":
+		for k := 0; k < 65536; k++ {
+			visit((k * 40503) & 0xFFFF) // odd multiplier: a permutation
+		}
+	case "high-first":
+		for t := 4096; t < 65536; t++ {
+			visit(t)
+		}
+		for t := 0; t < 4096; t++ {
+			visit(t)
+		}
+	default:
+		for t := 0; t < 65536; t++ {
+			visit(t)
+		}
+	}
+	h := sha1.Sum(tab)
+	return hex.EncodeToString(h[:]) + ":" + string(firstDiffHelper(tab))
+}
+
+var ascTable []byte
+
+func firstDiffHelper(tab []byte) []byte { return []byte(hex.EncodeToString(tab)) }
+
 func main() {
 	if par.IsWorker() {
-		var j struct{}
-		par.WorkerMain(&j, func() interface{} { return map[string]string{"digest": eventTypeDigest()} })
+		var j struct{ Order string }
+		par.WorkerMain(&j, func() interface{} {
+			// nothing else may call GetAuditEventType in this process before the ordered pass
+			return map[string]string{"order": j.Order, "table": orderTable(j.Order)}
+		})
 	}
 	prop := flag.String("prop", "C20", "property id")
 	tier := flag.String("tier", "quick", "quick|thorough")
@@ -503,22 +539,39 @@ func eventTypes() {
 		return
 	}
 	var other string
-	par.Map("tables", []interface{}{struct{}{}, struct{}{}}, 10*time.Minute, nil, func(r par.Result) {
+	tables := map[string]string{}
+	jobs := []interface{}{map[string]string{"Order": "ascending"}, map[string]string{"Order": "descending"}, map[string]string{"Order": "stride"}, map[string]string{"Order": "high-first"}}
+	par.Map("tables", jobs, 10*time.Minute, nil, func(r par.Result) {
 		if r.Died {
 			run.Errorf("digest worker died: %s", r.Stderr)
 			return
 		}
 		var m map[string]string
 		_ = json.Unmarshal(r.Out, &m)
-		evals += 65536
-		if m["digest"] != d1 {
-			other = m["digest"]
-		}
+		evals += 2 * 65536
+		tables[m["order"]] = m["table"]
 	})
-	if other != "" {
-		rep("event-type-differs-between-processes", "GetAuditEventType digest %s in this process, %s in another", d1, other)
-		return
+	for _, o := range []string{"descending", "stride", "high-first"} {
+		if tables[o] == "" || tables["ascending"] == "" {
+			run.Errorf("missing category table for order %s", o)
+			continue
+		}
+		if tables[o] != tables["ascending"] {
+			a := tables["ascending"][41:]
+			b := tables[o][41:]
+			first := -1
+			for i := 0; i+1 < len(a) && i+1 < len(b); i += 2 {
+				if a[i:i+2] != b[i:i+2] {
+					first = i / 2
+					break
+				}
+			}
+			rep("event-type-depends-on-call-history", "GetAuditEventType categorises record type %d differently when the 65536 types are visited in %s order than in ascending order (each in a fresh process)", first, o)
+		} else {
+			nontriv += 65536
+		}
 	}
+	_ = other
 	// every type gets a named category
 	for t := 0; t < 65536; t++ {
 		e := aucoalesce.GetAuditEventType(auparse.AuditMessageType(t))
